@@ -581,6 +581,30 @@ class BuiltinsMixin:
                 return items[self.norm_index(i, len(items))]
             if o.tag == "rematch":
                 return o.fields["groups"][i]
+            if o.tag == "range":
+                ra = o.fields["args"]
+                if not all(isinstance(x, int) for x in ra):
+                    raise Unsupported("subscript of a symbolic range")
+                r_ = range(*ra)
+                if isinstance(i, slice):
+                    return ListV(list(r_)[self.conc_slice(i, len(r_))])
+                if isinstance(i, EnumVal) and i.cls.is_intenum:
+                    i = i.value
+                if isinstance(i, SV):
+                    if not (isinstance(i.ty, tuple) or i.ty in ("int", "bool")):
+                        self.raise_py("TypeError", "range indices must be integers or slices")
+                    zi = to_z3(i, "int")
+                    n_ = len(r_)
+                    if self.st.branch(z3.Or(zi < -n_, zi >= n_), "range-index-out-of-range"):
+                        self.raise_py("IndexError", "range object index out of range")
+                    zi = z3.If(zi < 0, zi + n_, zi)
+                    return SV(r_.start + r_.step * zi, "int")
+                if not isinstance(i, int):
+                    self.raise_py("TypeError", "range indices must be integers or slices")
+                try:
+                    return r_[i]
+                except IndexError:
+                    self.raise_py("IndexError", "range object index out of range")
             f, _ = o.cls.lookup("__getitem__")
             if f is not None:
                 return self.call(self.bind(f, o), [i], {})
